@@ -427,6 +427,25 @@ def F29_short_all_in_since_own_action():
         return 'p4 called 30, faces 5 (a full raise is 20) and may raise'
 
 
+def F30_up_hand_key_error():
+    """C08 (fixed in d358886): an unknown card face up made can_show_or_muck_hole_cards raise KeyError."""
+    autos = (A.ANTE_POSTING, A.BET_COLLECTION, A.BLIND_OR_STRADDLE_POSTING, A.CARD_BURNING, A.BOARD_DEALING,
+             A.HAND_KILLING, A.CHIPS_PUSHING, A.CHIPS_PULLING)
+    streets = (Street(False, (False, True), 0, False, Opening.POSITION, 2, None),
+               Street(True, (), 4, False, Opening.POSITION, 2, None))
+    s = State(autos, Deck.STANDARD, (StandardHighHand,), streets, BettingStructure.NO_LIMIT, True, 0, (1, 2), 0, 200, 2)
+    s.deal_hole('2c??')             # the second card is dealt face up - and unknown: with the four board cards
+                                    # the player's exposed hand has five cards, one of them of unknown rank
+    s.deal_hole('KsKd')
+    while s.actor_index is not None:
+        s.check_or_call()
+    try:
+        s.can_show_or_muck_hole_cards()
+        s.can_win_now(0), s.can_win_now(1)
+    except KeyError as e:
+        return f'can_show_or_muck_hole_cards / can_win_now raised KeyError {e}'
+
+
 DEMOS = {k: v for k, v in globals().items() if k.startswith('F') and callable(v) and k[1:2].isdigit()}
 
 if __name__ == '__main__':
